@@ -133,10 +133,6 @@ open LolHtml LolHtml.Model LolHtml.Spec.Edit
 /-! ### Per-kind decomposition: the content operations only touch `mutations`, the other
 operations only touch the token's own fields. -/
 
-def startMutOps (ops : List StartTagOp) : List MutOp := ops.filterMap fun | .mut o => some o | _ => none
-def endMutOps (ops : List EndTagOp) : List MutOp := ops.filterMap fun | .mut o => some o | _ => none
-def commentMutOps (ops : List CommentOp) : List MutOp := ops.filterMap fun | .mut o => some o | _ => none
-def textMutOps (ops : List TextOp) : List MutOp := ops.filterMap fun | .mut o => some o | _ => none
 
 theorem startTag_mutations (t : StartTag) (ops : List StartTagOp) :
     (t.applyOps ops).mutations = (startMutOps ops).foldl Mutations.apply t.mutations := by
